@@ -41,7 +41,7 @@ func init() {
 		Directed:   c18Directed,
 		Run:        c18Run,
 		MustHit:    []string{"mode=scheduled-builders", "mode=sequential-history", "mode=masked-bytes-enumeration", "mode=short-reads", "mode=real-entropy", "preemption", "kind=AuthnRequest", "kind=LogoutRequest", "kind=LogoutResponse", "two_instances", "enumerated_block_rendered"},
-		RandomRuns: map[string]int{"quick": 200, "thorough": 10000},
+		RandomRuns: map[string]int{"quick": 400, "thorough": 10000},
 		Assumptions: []string{"unpredictability is shown as provenance only: every free bit comes unchanged from crypto/rand.Reader; the quality of the OS generator is assumed",
 			"entropy errors are not injected (since Go 1.24 a failing crypto/rand.Reader is fatal by design); only short reads are a legal fault on that seam",
 			"the real-entropy phase is not replayable by nature (a duplicate has probability about 2^-82)"},
